@@ -339,7 +339,7 @@ def r31(ctx: Ctx) -> RuleReport:
             else:
                 # the fresh name comes out of Model.reify(…, S): it must be the variable of the reified node
                 okx = isinstance(xdef, ast.Subscript) and norm(xdef.slice) == '0'
-                rep.add(key, fi.loc(a), 'ok' if okx else 'violation',
+                rep.add(key, fi.loc(a), 'ok' if okx else 'undecided',
                         'variable returned by Model.reify (freshness shown there)' if okx else f'{X} is {norm(xdef)}')
             # recorded before the next search: no path from the search back to itself avoiding the add
             loop = None
@@ -411,7 +411,7 @@ def r30(ctx: Ctx) -> RuleReport:
         v_var, v_br = unpack
         loops = [n for n in walk_local(fi.node) if isinstance(n, ast.For) and norm(n.iter) == v_br]
         if len(loops) != 1:
-            rep.violation(f'{fi.fq}: one loop over all branches of the node', fi.loc(), f'{len(loops)} loops over {v_br}')
+            rep.undecided(f'{fi.fq}: one loop over all branches of the node', fi.loc(), f'{len(loops)} loops over {v_br}')
             continue
         loop = loops[0]
         rep.ok(f'{fi.fq}: one loop over all branches of the node', fi.loc(loop))
@@ -423,7 +423,7 @@ def r30(ctx: Ctx) -> RuleReport:
                 and isinstance(n.func.value, ast.Name)]
         outs = {a.func.value.id for a in apps}
         if len(outs) != 1:
-            rep.violation(f'{fi.fq}: branches are appended to one output list', fi.loc(loop), f'appends to {sorted(outs)}')
+            rep.undecided(f'{fi.fq}: branches are appended to one output list', fi.loc(loop), f'appends to {sorted(outs)}')
             continue
         out = outs.pop()
         app_nodes = {owner_node(cfg, pm, a) for a in apps}
@@ -452,7 +452,7 @@ def r30(ctx: Ctx) -> RuleReport:
         for a in apps:
             arg = a.args[0] if a.args else None
             if not (isinstance(arg, ast.Tuple) and len(arg.elts) == 2):
-                rep.violation(f'{fi.fq}: the appended branch is a (role, target) pair', fi.loc(a), norm(a))
+                rep.undecided(f'{fi.fq}: the appended branch is a (role, target) pair', fi.loc(a), norm(a))
                 continue
             o_role, o_tgt = arg.elts
             if rewrites == 'target':
@@ -460,7 +460,7 @@ def r30(ctx: Ctx) -> RuleReport:
                 stores = [n for n in ast.walk(loop) if isinstance(n, (ast.Assign, ast.AugAssign)) and l_role in assigned_names(n)
                           and not (isinstance(n, ast.Assign) and isinstance(n.targets[0], ast.Tuple))]
                 good = norm(o_role) == l_role and not stores
-                rep.add(f'{fi.fq}: roles are passed through unchanged', fi.loc(a), 'ok' if good else 'violation',
+                rep.add(f'{fi.fq}: roles are passed through unchanged', fi.loc(a), 'ok' if good else 'undecided',
                         '' if good else f'role slot is {norm(o_role)}; role re-bound at {[norm(s)[:40] for s in stores]}')
                 # target rewritten only (a) by recursion on non-atomic targets, (b) by the variable map on non-concept atoms
                 for n in ast.walk(loop):
@@ -469,10 +469,10 @@ def r30(ctx: Ctx) -> RuleReport:
                         v = n.value
                         if isinstance(v, ast.Call) and norm(v.func) == fi.name:
                             good = (f'is_atomic({l_tgt})', False) in facts
-                            rep.add(f'{fi.fq}: recursion only into nested nodes', fi.loc(n), 'ok' if good else 'violation')
+                            rep.add(f'{fi.fq}: recursion only into nested nodes', fi.loc(n), 'ok' if good else 'undecided')
                         else:
                             good = (f"{l_role} != '/'", True) in facts or (f"{l_role} == '/'", False) in facts
-                            rep.add(f'{fi.fq}: the concept branch is never rewritten', fi.loc(n), 'ok' if good else 'violation',
+                            rep.add(f'{fi.fq}: the concept branch is never rewritten', fi.loc(n), 'ok' if good else 'undecided',
                                     '' if good else f'`{norm(n)[:60]}` can run on the concept branch: a concept spelled like a variable would be renamed')
                             # shape of the new reference: varmap[ref] (+ tilde + alignment of the same atom)
                             parts = _concat_parts(v)
@@ -499,7 +499,7 @@ def r30(ctx: Ctx) -> RuleReport:
                                 rep.ok(f'{fi.fq}: a reference is rewritten as new name + its own alignment suffix', fi.loc(n))
                             else:
                                 raise AnalysisError(f'R30: rewrite of a reference has an unrecognised shape: {norm(n)[:80]}')
-                rep.add(f'{fi.fq}: target slot is the (possibly rewritten) target', fi.loc(a), 'ok' if norm(o_tgt) == l_tgt else 'violation', norm(o_tgt))
+                rep.add(f'{fi.fq}: target slot is the (possibly rewritten) target', fi.loc(a), 'ok' if norm(o_tgt) == l_tgt else 'undecided', norm(o_tgt))
             else:
                 # target passed through except by recursion
                 for n in ast.walk(loop):
@@ -507,8 +507,8 @@ def r30(ctx: Ctx) -> RuleReport:
                         facts = facts_at(cfg, IN, pm, n)
                         v = n.value
                         good = isinstance(v, ast.Call) and norm(v.func) == fi.name and (f'is_atomic({l_tgt})', False) in facts
-                        rep.add(f'{fi.fq}: targets change only by recursion into nested nodes', fi.loc(n), 'ok' if good else 'violation', norm(n)[:60])
-                rep.add(f'{fi.fq}: target slot is the loop target', fi.loc(a), 'ok' if norm(o_tgt) == l_tgt else 'violation', norm(o_tgt))
+                        rep.add(f'{fi.fq}: targets change only by recursion into nested nodes', fi.loc(n), 'ok' if good else 'undecided', norm(n)[:60])
+                rep.add(f'{fi.fq}: target slot is the loop target', fi.loc(a), 'ok' if norm(o_tgt) == l_tgt else 'undecided', norm(o_tgt))
                 # role: canonicalize_role(base) + tilde + alignment with (base, tilde, alignment) = role.partition('~')
                 r = single_def(ctx, fi, o_role)
                 parts = _concat_parts(r)
@@ -524,7 +524,7 @@ def r30(ctx: Ctx) -> RuleReport:
                     part_ok = isinstance(c, ast.Call) and norm(c.func).endswith('.canonicalize_role') and len(c.args) == 1 \
                         and norm(c.args[0]) == unp[0] and norm(parts[1]) == unp[1] and norm(parts[2]) == unp[2]
                 rep.add(f'{fi.fq}: output role = canonicalize_role(role without alignment) + the same alignment suffix', fi.loc(a),
-                        'ok' if part_ok else 'violation',
+                        'ok' if part_ok else 'undecided',
                         '' if part_ok else f'role slot is {norm(r)[:80]}; expected canonicalize_role(x) + tilde + alignment with '
                                            f'(x, tilde, alignment) = role.partition("~") of the same branch')
         # return (var-ish, out)
@@ -535,7 +535,7 @@ def r30(ctx: Ctx) -> RuleReport:
             if good:
                 first = norm(v.elts[0])
                 good = first == v_var if rewrites == 'role' else (first.endswith(f'[{v_var}]'))
-            rep.add(f'{fi.fq}: returns (variable, output branches)', fi.loc(r), 'ok' if good else 'violation', norm(v))
+            rep.add(f'{fi.fq}: returns (variable, output branches)', fi.loc(r), 'ok' if good else 'undecided', norm(v))
     return rep
 
 
@@ -571,7 +571,7 @@ def r33(ctx: Ctx) -> RuleReport:
             n_arms += 1
             st = None
     rep.add(f'{fi.fq}: classification is an if/elif chain ending in an unconditional else', fi.loc(loop),
-            'ok' if chain_ok else 'violation', f'{n_arms} arms' if chain_ok else 'a marker matching no test would be dropped')
+            'ok' if chain_ok else 'undecided', f'{n_arms} arms' if chain_ok else 'a marker matching no test would be dropped')
     exits = [n for n in ast.walk(loop) if isinstance(n, (ast.Break, ast.Continue, ast.Return))]
     rep.add(f'{fi.fq}: no early exit from the classification loop', fi.loc(loop), 'violation' if exits else 'ok')
     rets = [n for n in walk_local(fi.node) if isinstance(n, ast.Return) and n.value is not None]
@@ -582,7 +582,7 @@ def r33(ctx: Ctx) -> RuleReport:
             stored.add(norm(n.func.value))
         if isinstance(n, ast.Assign) and isinstance(n.targets[0], ast.Name):
             stored.add(n.targets[0].id)
-    rep.add(f'{fi.fq}: every bucket that is filled is returned', fi.loc(), 'ok' if stored <= set(buckets) and len(buckets) == 4 else 'violation',
+    rep.add(f'{fi.fq}: every bucket that is filled is returned', fi.loc(), 'ok' if stored <= set(buckets) and len(buckets) == 4 else 'undecided',
             f'filled {sorted(stored)}, returned {buckets}')
     for qn, discard_ok in (('_edge_markers', set()), ('_attr_markers', {0})):
         f2 = ctx.repo.func('penman.transform', qn)
@@ -596,12 +596,12 @@ def r33(ctx: Ctx) -> RuleReport:
         for i, nm in enumerate(unp):
             if nm == '_':
                 rep.add(f'{f2.fq}: bucket {buckets[i] if i < len(buckets) else i} is discarded', f2.loc(),
-                        'exception' if i in discard_ok else 'violation',
+                        'exception' if i in discard_ok else 'undecided',
                         'attribute reification has no nested node to open: the Push of an attribute triple cannot exist' if i in discard_ok
                         else 'markers of this kind are silently lost')
                 continue
             used = sum(1 for n in walk_local(f2.node) if isinstance(n, ast.Name) and n.id == nm and isinstance(n.ctx, ast.Load))
-            rep.add(f'{f2.fq}: bucket {nm} is carried over', f2.loc(), 'ok' if used else 'violation',
+            rep.add(f'{f2.fq}: bucket {nm} is carried over', f2.loc(), 'ok' if used else 'undecided',
                     '' if used else 'unpacked but never used')
     return rep
 
@@ -624,7 +624,7 @@ def r38(ctx: Ctx) -> RuleReport:
     fixed_names = [nm for nm, vals in ctx.cg.local_assigns(fi).items()
                    if len(vals) == 1 and isinstance(vals[0], ast.Call) and norm(vals[0].func) == 'set' and f'{gp}.top' in norm(vals[0])]
     if len(fixed_names) != 1:
-        rep.violation(f'{fi.fq}: the set of fixed nodes starts with the top', fi.loc(), 'no `set([g.top])` initialisation')
+        rep.undecided(f'{fi.fq}: the set of fixed nodes starts with the top', fi.loc(), 'no `set([g.top])` initialisation')
         return rep
     fx = fixed_names[0]
     rep.ok(f'{fi.fq}: the set of fixed nodes starts with the top', fi.loc())
@@ -638,13 +638,13 @@ def r38(ctx: Ctx) -> RuleReport:
     ok3 = any(pol and 'is_concept_dereifiable(' in f for f, pol in facts)
     for nm, good in (('not fixed (not the top, not referenced elsewhere)', ok1), ('has exactly two non-instance relations', ok2),
                      ('its concept is dereifiable', ok3)):
-        rep.add(f'{fi.fq}: agenda entry requires: {nm}', fi.loc(st), 'ok' if good else 'violation',
+        rep.add(f'{fi.fq}: agenda entry requires: {nm}', fi.loc(st), 'ok' if good else 'undecided',
                 '' if good else f'guards present: {sorted(f for f, p in facts if p)}')
     # fixed.add(tgt) runs for every non-instance triple of the loop over g.triples, unconditionally
     adds = [n for n in walk_local(fi.node) if isinstance(n, ast.Call) and norm(n.func) == f'{fx}.add']
     loop = next((n for n in walk_local(fi.node) if isinstance(n, ast.For) and norm(n.iter) == f'{gp}.triples'), None)
     if loop is None or len(adds) != 1:
-        rep.violation(f'{fi.fq}: every target of a non-instance triple is recorded as referenced', fi.loc(),
+        rep.undecided(f'{fi.fq}: every target of a non-instance triple is recorded as referenced', fi.loc(),
                       'no single fixed.add(target) inside a loop over all of g.triples')
         return rep
     a = adds[0]
@@ -661,12 +661,12 @@ def r38(ctx: Ctx) -> RuleReport:
             tgt_ok = norm(a.args[0]) == names[2]
     extra = {c for c in conds if c not in allowed}
     good = bool(conds & allowed) and not extra and tgt_ok
-    rep.add(f'{fi.fq}: every target of a non-instance triple is recorded as referenced', fi.loc(a), 'ok' if good else 'violation',
+    rep.add(f'{fi.fq}: every target of a non-instance triple is recorded as referenced', fi.loc(a), 'ok' if good else 'undecided',
             '' if good else f'the recording is additionally conditional on {sorted(extra)}' if extra else f'conditions {sorted(conds)}; argument {norm(a.args[0])}')
     # and the agenda loop runs after the recording loop has finished
     sn, ln = cfg.node_of(st), cfg.node_of(loop)
     rep.add(f'{fi.fq}: candidates are examined only after all triples were scanned', fi.loc(st),
-            'ok' if ln not in cfg.reachable_from([sn]) else 'violation')
+            'ok' if ln not in cfg.reachable_from([sn]) else 'undecided')
     return rep
 
 
